@@ -82,10 +82,6 @@ instance (sky : ℚ → ℚ) (p : ℕ) (r : Region) : Decidable (WellRounded sky
   simp only
   split <;> infer_instance
 
-/-- the reader's delimiter stripping leaves a `{…}`-wrapped string alone. -/
-def braceSafe (s : Str) : Prop := s.head? ≠ some '{' ∧ s.getLast? ≠ some '}'
-instance (s : Str) : Decidable (braceSafe s) := by unfold braceSafe; infer_instance
-
 /-- `meta.get('include', True)` as a truth value. -/
 def includeSense (r : Region) : Bool :=
   match AL.get r.mta .include with
@@ -105,7 +101,7 @@ instance (r : Region) : Decidable (WF r) := by unfold WF; infer_instance
 
 /-! ### the reader's image (for the fixed-point clause)
 
-`ReaderNormal cfg p r`: `r` is a region as the reader produces it from a text written at precision
+`ReaderNormal p r`: `r` is a region as the reader produces it from a text written at precision
 `p` — numbers are `p`-decimals (longitudes in `[0, 360)`; ellipse axes twice a `p`-decimal), the
 class invariants on sizes hold, the metadata holds only DS9 meta keys with the reader's value types
 (`include` present; binary keys `0`/`1`; a non-empty list of tags; a string label), and — the scope
@@ -148,15 +144,16 @@ instance (s : Shape) (l : List ℚ) : Decidable (SizesValid s l) := by
 def binaryMeta : List Key :=
   [.background, .delete, .edit, .fixed, .highlite, .include, .move, .rotate, .select, .source]
 
-def StrOK (textPlain : Str → Prop) : Option PyVal → Prop
+/-- absent, or a string. -/
+def StrOK : Option PyVal → Prop
   | none => True
-  | some (.str s) => braceSafe s ∧ textPlain s
+  | some (.str _) => True
   | some _ => False
 
-instance (tp : Str → Prop) [DecidablePred tp] (v : Option PyVal) : Decidable (StrOK tp v) := by
+instance (v : Option PyVal) : Decidable (StrOK v) := by
   unfold StrOK; split <;> infer_instance
 
-def MetaNormal (textPlain : Str → Prop) [DecidablePred textPlain] (r : Region) : Prop :=
+def MetaNormal (r : Region) : Prop :=
   r.vis = plainVisual ∧
   (∀ kv ∈ r.mta, kv.1 ∈ ds9MetaKeys) ∧
   (∀ k ∈ binaryMeta, match AL.get r.mta k with
@@ -165,11 +162,11 @@ def MetaNormal (textPlain : Str → Prop) [DecidablePred textPlain] (r : Region)
   (AL.get r.mta .include).isSome = true ∧
   (match AL.get r.mta .tag with
    | none => True
-   | some (.strs l) => l ≠ [] ∧ ∀ s ∈ l, braceSafe s
+   | some (.strs l) => l ≠ []
    | some _ => False) ∧
-  StrOK textPlain (AL.get r.mta .text) ∧ StrOK textPlain r.text
+  StrOK (AL.get r.mta .text) ∧ StrOK r.text
 
-instance (tp : Str → Prop) [DecidablePred tp] (r : Region) : Decidable (MetaNormal tp r) := by
+instance (r : Region) : Decidable (MetaNormal r) := by
   unfold MetaNormal
   refine @instDecidableAnd _ _ inferInstance (@instDecidableAnd _ _ inferInstance
     (@instDecidableAnd _ _ ?_ (@instDecidableAnd _ _ inferInstance (@instDecidableAnd _ _ ?_ inferInstance))))
@@ -177,12 +174,12 @@ instance (tp : Str → Prop) [DecidablePred tp] (r : Region) : Decidable (MetaNo
     intro k; simp only; split <;> infer_instance
   · split <;> infer_instance
 
-def ReaderNormal (textPlain : Str → Prop) [DecidablePred textPlain] (p : ℕ) (r : Region) : Prop :=
+def ReaderNormal (p : ℕ) (r : Region) : Prop :=
   WF r ∧ Expressible r ∧ r.shape ≠ .regularPolygon ∧
   (∀ c ∈ r.coords, CoordNormal p (decide (r.frame = .image)) c) ∧
-  NumsNormal p r.shape r.nums ∧ SizesValid r.shape r.nums ∧ MetaNormal textPlain r
+  NumsNormal p r.shape r.nums ∧ SizesValid r.shape r.nums ∧ MetaNormal r
 
-instance (tp : Str → Prop) [DecidablePred tp] (p : ℕ) (r : Region) : Decidable (ReaderNormal tp p r) := by
+instance (p : ℕ) (r : Region) : Decidable (ReaderNormal p r) := by
   unfold ReaderNormal; infer_instance
 
 /-- equality of regions as `Region.__eq__` sees it: dictionaries are compared as mappings. -/
